@@ -10,9 +10,16 @@
      gmtime i<t>               -> ok y m0 d h mi s wd yd
      mktime i<y> i<m0> …       -> ok i<t>            (missing fields are 0, as in arrayToTime)
      todate i<t>               -> ok s<hex> | ?range  (years outside 0..9999)
-     fromdate s<hex>           -> ok i<t> | err | ?shape -/
+     fromdate s<hex>           -> ok i<t> | err | ?shape
+   stream `pairs` (the jq-defined pairs, Model/Pairs.lean + Model/Cli/Stream.lean):  `<name> <wire value>`
+     to_entries | from_entries | with_entries v   -> ok <wire> | err        (with_entries is with_entries(.))
+     paths | tostream v                           -> ok [ … ]               ([paths], [tostream])
+     fromstream [ ev* ]                           -> ok [ … ] | err | ?…    ([fromstream(.[])])
+     replay [ ev* ]                               -> ok <wire> | err | ?…
+        (reduce (.[] | select(length == 2)) as [$p, $x] (null; setpath($p; $x))) -/
 import Gojq.Model.Codec
 import Gojq.Model.Calendar
+import Gojq.Model.Pairs
 import Gojq.Model.Wire
 import Driver.Common
 open Gojq Gojq.Wire Gojq.Codec Gojq.Calendar
@@ -79,5 +86,62 @@ def codecLine (line : String) : String :=
         | none => "?shape"
       | _, _ => "?op"
 
+/-! ### stream `pairs` -/
+
+def optAns : Option JV → String
+  | some v => "ok " ++ toWire v
+  | none => "err"
+
+/-- path elements on which `Stream.setpath` (the fragment of `setpath` inside `fromstreamSpec`) is
+    the native: strings, integers 0 ≤ i < 2^29, and elements every `setpath` rejects -/
+def elemModelled : JV → Bool
+  | .num (.int i) => 0 ≤ i && i < 536870912
+  | .num _ => false
+  | .obj _ => false
+  | _ => true
+
+/-- `fromstreamSpec` models the fold on well-formed events `[path, leaf]` / `[path]` -/
+def eventModelled : JV → Bool
+  | .arr [.arr p, _] => p.all elemModelled
+  | .arr [.arr _] => true
+  | _ => false
+
+def isArr : JV → Bool
+  | .arr _ => true
+  | _ => false
+
+def pairsLine (line : String) : String :=
+  match tokens line with
+  | [] => "?empty"
+  | op :: rest =>
+    match parseVals rest with
+    | some [v] =>
+      match op with
+      | "to_entries" => optAns (Pairs.toEntries v)
+      | "from_entries" => optAns (Pairs.fromEntries v)
+      | "with_entries" => optAns (Pairs.withEntries some v)
+      | "paths" => optAns (some (Pairs.pathsJV (Pairs.allPaths v)))
+      | "tostream" => optAns (some (.arr (Stream.streamSpec v)))
+      | "fromstream" =>
+        match v with
+        | .arr evs =>
+          if evs.all eventModelled then
+            match Stream.fromstreamSpec evs with
+            | .ok outs => optAns (some (.arr outs))
+            | .error _ => "err"
+          else "?event outside the modelled fragment"
+        | _ => "?not an array"
+      | "replay" =>
+        match v with
+        | .arr evs =>
+          if evs.all isArr then
+            match Pairs.replayEvents evs .null with
+            | .ok w => optAns (some w)
+            | .error e => if e.isUnmodelled then "?setpath outside the model" else "err"
+          else "?event is not an array"
+        | _ => "?not an array"
+      | _ => "?op"
+    | _ => "?parse"
+
 def main (args : List String) : IO UInt32 :=
-  Driver.main [("codec", codecLine)] args
+  Driver.main [("codec", codecLine), ("pairs", pairsLine)] args
